@@ -180,6 +180,16 @@ func checkFlattened(c *ucfg.Config, leaves []string, opts []ucfg.Option) error {
 	return nil
 }
 
+// hasDup reports whether a sorted list of paths holds one path twice.
+func hasDup(sorted []string) bool {
+	for i := 1; i < len(sorted); i++ {
+		if sorted[i] == sorted[i-1] {
+			return true
+		}
+	}
+	return false
+}
+
 func set(keys []string) map[string]bool {
 	m := map[string]bool{}
 	for _, k := range keys {
@@ -327,17 +337,23 @@ func runCase(c Case, r *runlog.R) error {
 		if err := checkFlattened(st.Root.C, leaves, st.Opts); err != nil {
 			return err
 		}
-		// against the state before the step (built from the model)
-		if err := checkDiff(prevCfg, st.Root.C, prevLeaves, leaves, st.Opts); err != nil {
-			return fmt.Errorf("old = state before the step: %v", err)
-		}
 		cur, err := fresh(st.Root.M, st.Opts)
 		if err != nil {
 			return fmt.Errorf("building a config from the model failed: %v", err)
 		}
-		// against an equal config: no change
-		if err := checkDiff(st.Root.C, cur, leaves, leaves, st.Opts); err != nil {
-			return fmt.Errorf("new = an equal config built from scratch: %v", err)
+		if hasDup(prevLeaves) || hasDup(leaves) {
+			// Without PathSep a key may contain the separator literally ("m.1" next to m:{1:..}); two settings
+			// then share one path string and "partitions those paths" has no meaning: diff is not asserted.
+			r.Class("ambiguous path strings: diff not asserted")
+		} else {
+			// against the state before the step (built from the model)
+			if err := checkDiff(prevCfg, st.Root.C, prevLeaves, leaves, st.Opts); err != nil {
+				return fmt.Errorf("old = state before the step: %v", err)
+			}
+			// against an equal config: no change
+			if err := checkDiff(st.Root.C, cur, leaves, leaves, st.Opts); err != nil {
+				return fmt.Errorf("new = an equal config built from scratch: %v", err)
+			}
 		}
 		prevCfg, prevLeaves = cur, leaves
 		return nil
